@@ -8,6 +8,7 @@ by the Lean reference interpreter.  A function must be rejected or agree with Go
 import collections
 import json
 import os
+import sys
 import re
 import shutil
 
@@ -66,6 +67,8 @@ def check(ctx, build=None):
 
     def viol(what, inp, expected, observed):
         nonlocal found
+        if os.environ.get("VERIF_DEBUG"):
+            sys.stderr.write("debug: %s %s %s\n" % (what, json.dumps(inp)[:200], json.dumps(observed)[:300]))
         if found:
             return
         found = True
